@@ -211,7 +211,7 @@ theorem anti_join_empty_right {A B : Type} (on : A → B → Bool) (l : List A) 
 
 /-! ### Join reordering -/
 
-theorem flatMap_append_perm' {A C : Type} (g h : A → List C) (l : List A) :
+theorem flatMap_append_perm_aux {A C : Type} (g h : A → List C) (l : List A) :
     (l.flatMap fun a => g a ++ h a).Perm (l.flatMap g ++ l.flatMap h) := by
   induction l with
   | nil => simp
@@ -252,7 +252,7 @@ theorem cross_comm {A B : Type} (l : List A) (r : List B) :
       funext b
       simp [List.map_map, Function.comp_def]
     rw [hl]
-    refine (flatMap_append_perm' (fun b => [(a, b)]) (fun b => as.map fun x => (x, b)) r).trans ?_
+    refine (flatMap_append_perm_aux (fun b => [(a, b)]) (fun b => as.map fun x => (x, b)) r).trans ?_
     have e1 : (r.flatMap fun b => [(a, b)]) = r.map fun b => (a, b) := flatMap_singleton_eq_map (fun b => (a, b)) r
     rw [e1]
     refine List.Perm.append_left _ ?_
